@@ -185,6 +185,9 @@ def check_function_affine(ctx, mod, qual, fn):
                     ok, how = True, 'element %d of a coordinate triple' % AXES.index(axis)
                 elif isinstance(par, ast.keyword) and par.arg in (axis, axis + 'i'):
                     ok, how = True, 'passed as the %s coordinate of a new position' % axis
+                elif isinstance(par, ast.Call) and top in par.args and len(par.args) >= 4 \
+                        and par.args.index(top) == 1 + AXES.index(axis):
+                    ok, how = True, 'constructed position handed on as the %s coordinate' % axis
                 elif isinstance(stmt, ast.Assign) and stmt.value is top and \
                         isinstance(stmt.targets[0], ast.Attribute) and stmt.targets[0].attr == axis:
                     ok, how = True, 'copied into the %s coordinate of another object' % axis
